@@ -40,7 +40,12 @@ RULE = (
 def run(rep):
     tier, rng = rep.tier, Rng(rep.seed)
     broken = []
-    po = common.proof_obligations(PROP_FILES)
+    # translator: the replica handlers (guards, state updates, effect order) and the proposer's decision are
+    # regenerated from the source and proved equal to Model/Replica.v (Properties/C05Gen2-4.v)
+    import rust2coq
+    translator, gen_files = rust2coq.step(rust2coq.REPLICA_STEP, rust2coq.REPLICA_PROPS, broken)
+    rep.cov["translator"] = translator
+    po = common.proof_obligations(PROP_FILES + gen_files)
     if not po["ok"]:
         broken.append("Coq obligations of Properties/C06.v: " + (po["log_tail"] or str(po["hygiene_problems"] or po["bad_axioms"])))
     opts = {"prefix_ops": 120, "rounds": 10 if tier == "quick" else 30, "shard": 2 if tier == "quick" else 4}
